@@ -699,6 +699,17 @@ func (x *FnExec) appendBuiltin(fr *Frame, cc *ssa.CallCommon, st *State, g *Term
 	case *Term:
 		add = x.stringToBytes(st, a)
 	}
+	// name ite-valued components of the operands (phi merges): ite terms inside quantifier patterns defeat E-matching
+	nameIn := func(prefix string, def *Term) *Term {
+		if def.op != "ite" {
+			return def
+		}
+		v := tc.Fresh(prefix, def.sort)
+		x.assume(g, tc.Eq(v, def))
+		return v
+	}
+	s = &SliceV{nameIn("appin.arr", s.arr), nameIn("appin.off", s.off), nameIn("appin.len", s.ln), nameIn("appin.cap", s.cp)}
+	add = &SliceV{nameIn("appadd.arr", add.arr), nameIn("appadd.off", add.off), nameIn("appadd.len", add.ln), nameIn("appadd.cap", add.cp)}
 	// Either in place (len+n <= cap) or a fresh array.  Model: result array r2.
 	n := add.ln
 	newLen := x.intAdd(s.ln, n)
@@ -745,6 +756,11 @@ func (x *FnExec) appendBuiltin(fr *Frame, cc *ssa.CallCommon, st *State, g *Term
 			tc.Eq(tc.Select(newA, x.intAdd(res.off, j)), tc.Select(oldS, x.intAdd(s.off, j))))))
 		x.assume(g, tc.Forall([]*Term{j}, tc.Implies(tc.And(x.intLe(z, j), x.intLt(j, n)),
 			tc.Eq(tc.Select(newA, x.intAdd(base, j)), tc.Select(oldA, x.intAdd(add.off, j))))))
+		// boundary instances of the kept part (first and last old element) spare the solver an instantiation
+		for _, jj := range []*Term{z, x.intSub(s.ln, x.refConst(1))} {
+			x.assume(g, tc.Implies(tc.And(x.intLe(z, jj), x.intLt(jj, s.ln)),
+				tc.Eq(tc.Select(newA, x.intAdd(res.off, jj)), tc.Select(oldS, x.intAdd(s.off, jj)))))
+		}
 		if c, ok := n.intConst(); ok && c.Int64() <= 4 {
 			for k := int64(0); k < c.Int64(); k++ {
 				x.assume(g, tc.Eq(tc.Select(newA, x.intAdd(base, x.refConst(k))), tc.Select(oldA, x.intAdd(add.off, x.refConst(k)))))
